@@ -503,7 +503,7 @@ class ExprMixin:
             return out
         if gen.ifs:
             raise Unsupported("filtered comprehension over a symbolic list")
-        if isinstance(it.elem, TOpaque) and not self.ctx.spec_mode:
+        if isinstance(it.elem, TOpaque) and not self.ctx.spec_mode and self._elt_is_opaque_method(node.elt, gen.target):
             # opaque elements (e.g. lazy argument objects): the element expression is abstracted to an
             # uninterpreted function of the element; its calls are assumed not to touch modelled state
             j = z3.Int("cj")
@@ -526,6 +526,11 @@ class ExprMixin:
         return SList(it.len, z3.Lambda([j], ety.unwrap(v, self.ctx)), ety)
 
     ev_GeneratorExp = ev_ListComp
+
+    @staticmethod
+    def _elt_is_opaque_method(elt, target):
+        return (isinstance(elt, ast.Call) and isinstance(elt.func, ast.Attribute) and isinstance(elt.func.value, ast.Name)
+                and isinstance(target, ast.Name) and elt.func.value.id == target.id)
 
     def ev_DictComp(self, node):
         gen = node.generators[0]
